@@ -64,6 +64,15 @@ def check(cps: $$CPS$$) -> bool:
     d = pc.take(1)
     block = hc.canon_block("", [d]) if DOCUMENTED else None
     cleaned = d + chr(10)
+    if CMD == "option_twice":
+        # two option() commands, the second undocumented and named by its own symbolic text (it may repeat the first name):
+        # every option() yields its own entry, documented or not, at any position
+        name2 = vals[-1][0]
+        first = [(t, x) for (x, t) in vals[:-1]]
+        cmds = [prog.cmd("option", [(hc.ID, name)] + first, block, cleaned), prog.cmd("if", ["WIN32"]),
+                prog.cmd("option", [(hc.ID, name2), (hc.QUO, Q + "other help" + Q), (hc.ID, "ON")]), prog.cmd("endif", [])]
+        got = prog.real_page(cmds, Settings())
+        return hc.report(got == prog.spec_page(cmds), cps=cps)
     cmds = [prog.cmd(CMD, [(hc.ID, name)] + [(t, x) for (x, t) in vals], block, cleaned)]
     got = prog.real_page(cmds, Settings())
     st = delta.State()
